@@ -193,34 +193,54 @@ def check_fragments(case) -> Result:
         if Counter((id(m.fragment), m.mz, m.intensity) for m in got2) != got_pairs:
             r.fail('matches do not depend on input order', 'C17/get_fragment_matches/order-dependent', **ctx)
 
-    # matched intensity share
+    # matched intensity share: the distinct matched PEAKS (two peaks may share an m/z value) over the total
+    tot = sum(ints)
+    expv = None
     if case['distinct']:
         matched = {}
         for m in got:
             matched[m.mz] = m.intensity
-        tot = sum(ints)
         expv = (sum(matched.values()) / tot) if tot else 0
-        try:
-            gv = pt.get_matched_intensity_percentage(got, ints)
-        except AttributeError as e:
-            r.fail('matched-intensity fraction', 'C17/get_matched_intensity_percentage/AttributeError', error=str(e)[:120], **ctx)
-            gv = None
-        if gv is not None and (abs(gv - expv) > 1e-9 or not (-1e-12 <= gv <= 1 + 1e-12)):
-            r.fail('matched-intensity fraction = intensity of distinct matched peaks / total, in [0,1]',
-                   'C17/get_matched_intensity_percentage/wrong', expected=expv, got=gv, **ctx)
+    elif mode == 'all':
+        idx = set()
+        for f in frags:
+            lo, hi = _window(f.mz, tol, typ)
+            idx |= {j for j, (m, _i) in enumerate(peaks) if lo <= m <= hi}
+        expv = (sum(ints[j] for j in idx) / tot) if tot else 0
+    try:
+        gv = pt.get_matched_intensity_percentage(got, ints)
+    except AttributeError as e:
+        r.fail('matched-intensity fraction', 'C17/get_matched_intensity_percentage/AttributeError', error=str(e)[:120], **ctx)
+        gv = None
+    if gv is not None and not (-1e-12 <= gv <= 1 + 1e-12):
+        r.fail('matched-intensity fraction lies in [0,1]', 'C17/get_matched_intensity_percentage/out-of-range', got=gv, **ctx)
+    elif gv is not None and expv is not None and abs(gv - expv) > 1e-9:
+        # matches carry the peak's m/z and intensity but not its index; the library keys the matched peaks by m/z
+        by_mz = {}
+        for m in got:
+            by_mz[m.mz] = m.intensity
+        merged = (sum(by_mz.values()) / tot) if tot else 0
+        sig = 'C17/get_matched_intensity_percentage/wrong'
+        if not case['distinct'] and abs(gv - merged) <= 1e-12:
+            sig = 'C17/get_matched_intensity_percentage/distinct-peaks-with-equal-mz-merged'
+        r.fail('matched-intensity fraction = intensity of distinct matched peaks / total, in [0,1]', sig, expected=expv, got=gv, **ctx)
 
-    # coverage: each match adds one to each residue of its span
+    # coverage: each matched FRAGMENT (however many peaks it matched) adds one to each residue of its span
     n = len(pt.strip_mods(case['peptide']))
     cov = {}
+    seen = set()
     for m in got:
         f = m.fragment
+        if id(f) in seen:
+            continue
+        seen.add(id(f))
         lab = '+' * f.charge + f.ion_type
         cov.setdefault(lab, [0] * n)
         for i in range(f.start, f.end):
             cov[lab][i] += 1
     gc = pt.get_match_coverage(got)
     if gc != cov:
-        r.fail('coverage counts the residues of each matched fragment', 'C17/get_match_coverage/wrong', expected=cov, got=gc, **ctx)
+        r.fail("coverage counts each matched fragment's residues once", 'C17/get_match_coverage/wrong' + ('/counted-once-per-matched-peak' if len(seen) < len(got) else ''), expected=cov, got=gc, **ctx)
     return r
 
 
